@@ -31,19 +31,8 @@ Definition add_offset (s : span) (bits : N) : span := mkspan (sp_data s) (sp_siz
 Definition align_offset_to (s : span) (n_bits : N) : span :=
   mkspan (sp_data s) (sp_size s) (N.land (w64 (sp_off s + (n_bits - 1))) (N.lxor (n_bits - 1) (N.ones 64))).
 
-(* any_bitspan::subspan(bits): new pointer, shrunk size, offset below 8 *)
-Definition subspan (s : span) (bits : N) : span :=
-  let offset_bits := w64 (sp_off s + bits) in
-  let offset_bytes := offset_bits / 8 in
-  let offset_bits_mod := offset_bits mod 8 in
-  let new_size := if offset_bytes <? sp_size s then sp_size s - offset_bytes else 0 in
-  mkspan (skipn (N.to_nat offset_bytes) (sp_data s)) new_size offset_bits_mod.
-
-(* any_bitspan::subspan_bytes(size_bytes) *)
-Definition subspan_bytes (s : span) (size_bytes : N) : span :=
-  let whole := subspan s 0 in
-  let available := sp_size whole in
-  mkspan (sp_data whole) (if size_bytes <? available then size_bytes else available) (sp_off whole).
+(* any_bitspan::subspan(bits) and subspan_bytes(n): current text in Prims/PrimsExt.v (subspan_clamped, subspan_bytes_clamped);
+   the unclamped text of before /repo 939fc9d is History/C14_history.v *)
 
 (* bitspan::subspan(bits_at, size_bits) -> Result<bitspan> *)
 Definition subspan2 (s : span) (bits_at size_bits : N) : span + err :=
@@ -160,7 +149,8 @@ Definition cpp_set_bit (s : span) (value : bool) : option (bytes + err) :=
        end.
 
 Definition cpp_set_uxx (s : span) (value len_bits : N) : option (bytes + err) :=
-  if w64 (sp_size s * 8) <? w64 (sp_off s + len_bits) then Some (inr TooSmall)
+  let capacity_bits := w64 (sp_size s * 8) in                                            (* current text, /repo ba46e0a *)
+  if (capacity_bits <? sp_off s) || (capacity_bits - sp_off s <? len_bits) then Some (inr TooSmall)
   else
     let saturated := N.min len_bits 64 in
     match copyTo (mkspan (tmp_any (w64 value)) 8 0) s saturated with
